@@ -158,10 +158,11 @@ def make_traces(prop, tier, seed, workdir, drive):
     traces.append(s3)
     # S4: exhaustive search of the implementation to a small depth around prepared states
     from concurrent.futures import ThreadPoolExecutor
-    names = ["answered", "between", "oneshot", "module"] if tier == "quick" else \
-            ["fresh", "inflight", "answered", "paused", "between", "lastbatch", "oneshot", "module", "binding"]
-    with ThreadPoolExecutor(max_workers=8) as ex:
-        res = list(ex.map(lambda n: drive(["explore", "-in", n, "-n", "80000", "-out", os.path.join(workdir, "s4%s.ndjson" % n)]), names))
+    names = ["fresh", "inflight", "answered", "paused", "between", "lastbatch", "oneshot", "module", "binding"]
+    deeper = [] if tier == "quick" else ["-steps", "5"]      # thorough: one level deeper (binding: as configured)
+    with ThreadPoolExecutor(max_workers=9) as ex:
+        res = list(ex.map(lambda n: drive(["explore", "-in", n, "-n", "400000", "-out", os.path.join(workdir, "s4%s.ndjson" % n)]
+                                          + ([] if n == "binding" else deeper)), names))
     stats["exhaustive_search"] = res
     traces += [os.path.join(workdir, "s4%s.ndjson" % n) for n in names]
     s2 = os.path.join(workdir, "s2.ndjson")
